@@ -52,6 +52,11 @@ func genManager(repo string) {
 	fmt.Fprintf(&g.body, "/-- the tag handler refuses an empty tag (it would become the nil UUID) -/\ndef tagRejectsEmpty : Bool := %v\n", emptyRejected)
 	fmt.Fprintf(&g.body, "/-- the tag handler commits the tag node only if creating it succeeded -/\ndef tagCommitsOnlyOnSuccess : Bool := %v\n", only)
 	facts.Extra["newUUIDChecksExisting"], facts.Extra["mergeValidatesFirst"], facts.Extra["tagCommitsOnlyOnSuccess"] = checks, first, only
+	// loadMetadata: the repair of the version id counter fires for v >= versionID
+	src = norm(ds, "repoManager", "loadMetadata")
+	ge := strings.Contains(strings.ReplaceAll(src, "\n", ""), "forv:=rangem.versionToUUID{ifv>=m.versionID{")
+	fmt.Fprintf(&g.body, "/-- at start-up the version id counter is moved past every stored version id, including one equal to it -/\ndef loaderRepairsEqualVersion : Bool := %v\n", ge)
+	facts.Extra["loaderRepairsEqualVersion"] = ge
 	// mutation id stride / initial value
 	for _, c := range [][2]string{{"StrideMutationID", "strideMutationID"}, {"InitialMutationID", "initialMutationID"}} {
 		g.constNat(repo, ds, c[0], c[1])
